@@ -26,7 +26,9 @@ REQUIRED_THEOREMS = ['CfVerif.C04.' + t for t in (
     'reply_attribution_duplicates_counterexample', 'open_lock_discipline', 'unmatched_reply_ignored',
     'stale_reply_ignored_when_idle', 'reply_for_other_request_ignored', 'update_callbacks_once_per_answer',
     'stale_same_id_counterexample', 'gen_retry_guard', 'retransmit_only_outstanding', 'gen_handler_unregisters',
-    'handler_done_on_every_reply', 'answered_requests_have_no_handler', 'no_handler_no_delivery')]
+    'handler_done_on_every_reply', 'answered_requests_have_no_handler', 'no_handler_no_delivery',
+    'gen_callback_before_unregister', 'nested_delivery_is_flat', 'nested_fifo_and_attribution',
+    'live_dispatch_reentrant_counterexample')]
 TRUSTED = ['harness/corr/c04.py extractor + correspondence + spec twin; harness/sim/crazyflie_device.py (session stepping, link) and harness/vsched',
            'environment model: the firmware parameter server of DESIGN Appendix D (Spec/C04 Dev = harness/sim CrazyflieDevice port 2, cross-checked on every transmitted request)',
            "CPython: struct pack/unpack as modelled in Base/Struct; int(str) on ASCII input; float(str) (passed to the model as an oracle, only reached for "
@@ -36,7 +38,9 @@ TRUSTED = ['harness/corr/c04.py extractor + correspondence + spec twin; harness/
            'atomicity: an API call, updater get, updater acquire+transmit, and the dispatch of one received packet are single steps of the model']
 ASSUMPTIONS = ['the 60 s wall-clock wait of set_value/get_value before the first full fetch is outside the model (Out.blocked)',
                'FP16 parameters (pytype \'\') are outside the property; the model follows the code (struct.error) and the harness keeps them out of connected tables',
-               'update / misc callbacks do not call back into Param while they run (no re-entrancy)',
+               'misc callbacks may re-enter the API (scripts of API calls, Sys.runS); update callbacks and the immediate refusal callback of '
+               'persistent_store(<unknown>) stay inert; the nested theorems assume no callback raises (a raising nested call leaves the handler '
+               'registered: modelled and compared, outside the theorem)',
                'link loss, close() and reconnection (queue drain, forced lock release) belong to C02/C10 and are not modelled',
                'duplicated / late / forged packets: covered by the open-system theorems (EvX.inject: lock discipline, FIFO, ignored when idle or when '
                'another index is outstanding, one fan-out per accepted answer); the closed-system theorems (Answers, attribution, round trip) assume '
